@@ -26,6 +26,7 @@
    cut: CApiProofs.write_all_sched_delivers, C12_linear_any_sink); raw pointers (a callback
    storing MORE than buffer_len bytes is memory corruption outside any model; one REPORTING
    more than buffer_len is modelled: the adapter trusts it, see [cbin_rd]). *)
+From MLA Require Import Limit.
 From MLA Require Import Base Stream EncLayer CompLayer RawLayer LayerStack Blocks Reader Format Ecies Archive CApi.
 Open Scope N_scope.
 
@@ -209,6 +210,7 @@ Fixpoint deliver (out : list (bytes * bytes)) (m : sinkmap) : sinkmap * res unit
 
 Section CApiRead.
   Variables CHUNK TAG BLOCK LIMIT FNMAX : N.
+  Local Hint Extern 0 Limit => exact LIMIT : typeclass_instances.
   Variables TS TC TA TE : N.
   Variable dh : bytes -> bytes -> bytes.
   Variable kdf : bytes -> bytes.
